@@ -53,7 +53,9 @@ fn main() {
     }
     std::fs::create_dir_all(&args.out).expect("create out dir");
     // Panics in code under test are data; keep the default hook quiet.
-    std::panic::set_hook(Box::new(|_| {}));
+    if std::env::var("VH_PANIC").is_err() {
+        std::panic::set_hook(Box::new(|_| {}));
+    }
     let code = drivers::dispatch(&driver, &args);
     std::process::exit(code);
 }
